@@ -5,7 +5,7 @@
           facts …                                           (the line printed by `sfh grid c17 <fmt> <state> <flavour>`)
           p cmd=<hex> size=<n> data=<null|a5|zero|one|nl>   (any number; a new `facts` line switches handle)
   stdout: `consts …` (the model's own constants, same layout) and one line per point:
-          p cmd=… size=… data=… | oob=<0|1> nullderef=<0|1> ret=<n|{a,b}|undef> err=<n|?> wr=<ranges|-> rd=<ranges|-> pure=<0|1> q=<0|1> term=<0|1|-> kf=<class|->
+          p cmd=… size=… data=… | oob=<0|1> nullderef=<0|1> ret=<n|{a,b}|undef> err=<n|?> wr=<ranges|-> rd=<ranges|-> pure=<0|1> q=<0|1> term=<0|1|->
 -/
 import SfModel.Command
 open Sf Sf.Command
@@ -124,7 +124,7 @@ def pointLine (g : G) (h : Option H) (cmdS : String) (size : Nat) (kind : String
   let term := if isStringCmd cmd ∧ size ≥ 1 ∧ data.isSome then (if r.terminates size then "1" else "0") else "-"
   let errS := match r.err with | some e => toString e | none => "?"
   s!"p cmd={cmdS} size={size} data={kind} | oob={if oob then 1 else 0} nullderef={if r.derefNull then 1 else 0} ret={showRet r.ret} err={errS}" ++
-  s!" wr={showRanges r.writes} rd={showRanges r.reads} pure={if pure then 1 else 0} q={if isQuery cmd then 1 else 0} term={term} kf={kfName h cmd size data}"
+  s!" wr={showRanges r.writes} rd={showRanges r.reads} pure={if pure then 1 else 0} q={if isQuery cmd then 1 else 0} term={term}"
 
 partial def loop (stdin : IO.FS.Stream) (g : G) (constToks : List String) (h : Option H) : IO Unit := do
   let line ← stdin.getLine
